@@ -32,7 +32,7 @@ MCInit ==
     /\ \E bad \in {0} \cup {b \in Blocks : InB(b)}, heavyB \in BOOLEAN :
           A = MkA(bad, [b \in Blocks |-> IF InB(b) /\ heavyB THEN 3 ELSE 2])
     /\ S = EmptyState /\ w = Idle
-    /\ last = [b |-> None, res |-> "none", ok |-> TRUE]
+    /\ last = [b |-> None, res |-> "none", ok |-> TRUE, same |-> TRUE, det |-> FALSE]
     /\ h = <<>>
 
 Delivered == {h[i] : i \in DOMAIN h}
@@ -52,8 +52,9 @@ MCUnwind == UnwindStep /\ UNCHANGED h
 MCWind   == WindStep /\ UNCHANGED h
 MCUnNew  == UnNewStep /\ UNCHANGED h
 MCRewind == RewindStep /\ UNCHANGED h
-MCNext == (\E b \in Blocks : Deliver(b)) \/ MCUnwind \/ MCWind \/ MCUnNew \/ MCRewind
-MCSpec == MCInit /\ [][MCNext]_mcvars /\ WF_mcvars(MCUnwind \/ MCWind \/ MCUnNew \/ MCRewind)
+MCCrash  == CrashStep /\ UNCHANGED h
+MCNext == (\E b \in Blocks : Deliver(b)) \/ MCUnwind \/ MCWind \/ MCUnNew \/ MCRewind \/ MCCrash
+MCSpec == MCInit /\ [][MCNext]_mcvars /\ WF_mcvars(MCUnwind \/ MCWind \/ MCUnNew \/ MCRewind \/ MCCrash)
 
 Done == w.pc = "idle" /\ (Len(h) = MaxLen \/ Delivered = Blocks)
 Scenario == [blocks |-> [b \in Blocks |-> [id |-> b, parent |-> A[b].parent, gt |-> A[b].gt,
